@@ -46,6 +46,7 @@ class SimulationAlgorithmGraphBase
 
     int Poisson(double lambda)
         {
+        if(!(lambda>0)) return 0;
         return std::poisson_distribution<int>(lambda)(rng);
         }
 
